@@ -521,6 +521,13 @@ int disasm_riscv_comp(
 
   for (int n = 0; table_riscv_comp[n].instr != NULL; n++)
   {
+    // RV64 reuses these encodings for c.addiw, c.ld, c.sd, c.ldsp, c.sdsp.
+    if ((flags & RISCV64) != 0 &&
+        (table_riscv_comp[n].flags & RISCV32) != 0)
+    {
+      continue;
+    }
+
     if ((opcode & table_riscv_comp[n].mask) == table_riscv_comp[n].opcode)
     {
       const char *instr = table_riscv_comp[n].instr;
@@ -875,7 +882,7 @@ void disasm_range_riscv(
       start,
       instruction,
       sizeof(instruction),
-      0,
+      flags,
       &cycles_min,
       &cycles_max);
 
